@@ -1,6 +1,7 @@
 import JenVerif.Registry
 import JenVerif.Quote
 import JenVerif.Render
+import JenVerif.FileRender
 /-
   Primitives that the ALGORITHM translator (translator/algo.go, tie 1b) maps Go constructs to.
   Each is a small total definition with the semantics of the Go construct it stands for:
@@ -140,6 +141,13 @@ def groupItemsO : Option Code → List Code
 def isDictO : Option Code → Bool
   | some c => isDict c
   | none => false
+
+/-- what a callee wrote into a LOCAL buffer handed to it as its writer (File.Save → File.Render):
+    the bytes of its caller-writes, and its other effects -/
+def callerWritten (es : List Effect) : Str :=
+  (es.filterMap fun e => match e with | .callerWrite b => some b | _ => none).flatten
+def withoutCallerWrites (es : List Effect) : List Effect :=
+  es.filter fun e => match e with | .callerWrite _ => false | _ => true
 
 /-- `sort.Strings` (bytewise order) -/
 def sortStrings (l : List Str) : List Str := l.mergeSort Str.le
